@@ -9,6 +9,7 @@ import (
 	"time"
 
 	jsonv2 "github.com/go-json-experiment/json"
+	jsonv1 "github.com/go-json-experiment/json/v1"
 
 	"verif/internal/enum"
 	"verif/internal/evid"
@@ -171,7 +172,11 @@ func fold(s string) string {
 }
 
 // lookup: which field does input name n select? ok=false: unknown; amb=true: ambiguous (error).
-func lookup(fields []cand, n string, insensitive bool) (c cand, ok bool, amb bool) {
+func lookup(fields []cand, n string, insensitive bool, delim ...bool) (c cand, ok bool, amb bool) {
+	fold := fold
+	if len(delim) > 0 && delim[0] {
+		fold = strings.ToLower // delimiters stay significant
+	}
 	for _, f := range fields {
 		if f.name == n {
 			return f, true, false
@@ -274,13 +279,16 @@ type optCase struct {
 	opts   []jsonv2.Options
 	insens bool
 	reject bool
+	delim  bool // v1.MatchCaseSensitiveDelimiter: '_' and '-' are significant when matching case-insensitively
 }
 
 var optCases = []optCase{
-	{"default", nil, false, false},
-	{"MatchCaseInsensitiveNames", []jsonv2.Options{jsonv2.MatchCaseInsensitiveNames(true)}, true, false},
-	{"RejectUnknownMembers", []jsonv2.Options{jsonv2.RejectUnknownMembers(true)}, false, true},
-	{"MatchCaseInsensitiveNames+RejectUnknownMembers", []jsonv2.Options{jsonv2.MatchCaseInsensitiveNames(true), jsonv2.RejectUnknownMembers(true)}, true, true},
+	{"default", nil, false, false, false},
+	{"MatchCaseInsensitiveNames", []jsonv2.Options{jsonv2.MatchCaseInsensitiveNames(true)}, true, false, false},
+	{"RejectUnknownMembers", []jsonv2.Options{jsonv2.RejectUnknownMembers(true)}, false, true, false},
+	{"MatchCaseInsensitiveNames+RejectUnknownMembers", []jsonv2.Options{jsonv2.MatchCaseInsensitiveNames(true), jsonv2.RejectUnknownMembers(true)}, true, true, false},
+	{"MatchCaseInsensitiveNames+MatchCaseSensitiveDelimiter+RejectUnknownMembers", []jsonv2.Options{jsonv2.MatchCaseInsensitiveNames(true), jsonv1.MatchCaseSensitiveDelimiter(true), jsonv2.RejectUnknownMembers(true)}, true, true, true},
+	{"MatchCaseSensitiveDelimiter alone", []jsonv2.Options{jsonv1.MatchCaseSensitiveDelimiter(true)}, false, false, true},
 }
 
 // checkGraph compares Marshal's member list and Unmarshal's field targeting with the resolver.
@@ -326,7 +334,7 @@ func checkGraph(root *structD) (msg string) {
 	// unmarshal: every input name under every option set
 	for _, oc := range optCases {
 		for _, n := range inputNames {
-			f, ok, amb := lookup(fields, n, oc.insens)
+			f, ok, amb := lookup(fields, n, oc.insens, oc.delim)
 			p := reflect.New(t)
 			uerr := jsonv2.Unmarshal([]byte(fmt.Sprintf(`{%q:99}`, n)), p.Interface(), oc.opts...)
 			where := fmt.Sprintf("Unmarshal({%q:99}) with %s", n, oc.name)
@@ -764,6 +772,15 @@ func checkWide() (n int64, msgs []string) {
 }
 
 func replayCase(cs Case) string {
+	if cs.Part == "omit-stream" {
+		var ti, L int
+		fmt.Sscan(cs.Name, &ti)
+		fmt.Sscan(cs.Opt, &L)
+		if cs.Index < len(streamValues()) && ti < 4 {
+			return streamOne(cs.Index, ti, L)
+		}
+		return ""
+	}
 	if cs.Part != "graph" {
 		return ""
 	}
@@ -861,4 +878,5 @@ func Run(r *evid.Run) {
 		r.Violation("c15|wide|"+m, m, Case{Part: "wide", Name: m}, nil)
 	}
 	r.Bound("omit/string: 23 value kinds x 5 tags x {default, OmitZeroStructFields}; wide structs with 63, 64, 65, 66, 129, 130 fields")
+	omitStreaming(r)
 }
